@@ -17,7 +17,6 @@ import re
 import shutil
 import sys
 import tempfile
-import time
 from concurrent.futures import ThreadPoolExecutor
 from pathlib import Path
 
@@ -293,13 +292,9 @@ def run(ctx):
     global BASE
     rng = np.random.default_rng(ctx.seed)
     quick = ctx.quick
-    phase, t_last = {}, [time.time()]
-
-    def lap(name):
-        phase[name] = round(time.time() - t_last[0], 1)
-        t_last[0] = time.time()
 
     # ---------------- (M) ----------------
+    ctx.phase("model_checking")
     jobs = [("Merge_quick.cfg", dict(note="table merger: every family <=3 inputs x <=3 rows x ranks 1..3 "
                                           "(unsorted included) x asc/desc")),
             ("Merge_plain.cfg", dict(note="row-dict merge: every descending-sorted family 3x3x3")),
@@ -317,8 +312,8 @@ def run(ctx):
     results = {cfg: ctx.model_check("Merge", cfg, **kw) for cfg, kw in jobs}
     ctx.require_actions(results["Merge_cov.cfg"], ["Advance", "Reject", "Exhaust", "Finish"])
 
-    lap("model_check_s")
     # ---------------- (G) ----------------
+    ctx.phase("generation")
     gens = ["Merge_gen_sorted3.cfg", "Merge_gen_any2.cfg"] + ([] if quick else ["Merge_gen_sorted4.cfg", "Merge_gen_any3.cfg"])
     with ThreadPoolExecutor(max_workers=4) as ex:
         gen = dict(zip(gens, ex.map(lambda g: tlc_cases(g)[0], gens)))
@@ -333,10 +328,10 @@ def run(ctx):
         if impl != "rowdict" or desc is not True:
             raise MachineryError("unexpected CASE from the sorted generator: %r" % ((impl, desc, inputs),))
         nmax = max(len(s) for s in inputs)
-        if len(inputs) <= 2:      # full cross: every reader chunk size 1..N+1 x both formats
+        if len(inputs) <= 2:      # every reader chunk size 1..N+1 (thorough: x both formats; quick: alternating)
             for v in variants_of(inputs):
                 for rc in range(1, nmax + 2):
-                    for fi in (0, 1):
+                    for fi in ((idx % 2,) if quick else (0, 1)):
                         cases.append(make_case(idx, *v, rchunk=rc, fmt=FORMATS[fi][0], ext=FORMATS[fi][1]))
                         idx += 1
         elif quick:               # 3 inputs, quick: one execution per family, rotating implementation / direction
@@ -384,8 +379,8 @@ def run(ctx):
     cases = rcases + cases                            # the long ones first (they take longest to drive)
     n_rand = len(rcases)
 
-    lap("generate_s")
     # ---------------- drive the real code ----------------
+    ctx.phase("driving")
     BASE = tempfile.mkdtemp(prefix="verif_c14_")
     try:
         call_real(cases[0])
@@ -405,7 +400,6 @@ def run(ctx):
     if bad:
         raise MachineryError("driver failed on %d cases, e.g. %s" % (len(bad), bad[0]["_harness"]))
 
-    lap("drive_s")
     stats = {"raised": 0, "completed": 0, "unsorted_inputs": 0}
     rtypes = {}
     for tid, c in enumerate(cases, 1):
@@ -424,14 +418,15 @@ def run(ctx):
     ctx.cov["c14"] = dict(stats, raised_types=rtypes, tlc_enumerated_cases=n_tlc, random_cases=n_rand)
 
     # ---------------- (V) ----------------
+    ctx.phase("validation")
     verdicts = ctx.validate("MergeTrace", "Trace.cfg", traces)
     for tid, c in enumerate(cases, 1):
         v = verdicts[tid]
         if not v["accept"]:
             ctx.reject({"case": c, "trace": traces[tid - 1]}, v["failed"], signature(c))
 
-    lap("validate_s")
     # ---------------- negative controls ----------------
+    ctx.phase("negative_controls")
     crng = np.random.default_rng(ctx.seed + 1)
     acc = [t for t in traces if verdicts[t["tid"]]["accept"]]
     done = [t for t in acc if not t["raised"] and len(t["out"]) >= 2]
@@ -453,8 +448,7 @@ def run(ctx):
                           name="row dropped / duplicated / replaced by a copy of another / two rows of different score "
                                "swapped / payload or score changed / raise on sorted input / unsorted input not rejected")
     ctx.cov["c14"]["negative_control_kinds"] = kinds
-    lap("negative_controls_s")
-    ctx.cov["c14"]["phase_wall"] = phase
+    ctx.phase("finish")
 
     ctx.assume("scores are rendered from integer ranks by a strictly increasing affine map with dyadic values "
                "(exact in text and Parquet); a returned score is mapped back to its rank within 1e-9 relative")
@@ -466,14 +460,14 @@ def run(ctx):
     return ctx.finish(
         rule="cases = every descending-sorted family of 1..3 inputs x 1..3 rows x ranks 1..3%s enumerated by TLC from "
              "Merge.tla Init, run through merge_sort (desc), the table merger desc and (rank-mirrored) asc%s; "
-             "families of <= 2 inputs under every reader chunk size 1..N+1 x text/Parquet, the others rotating "
+             "families of <= 2 inputs under every reader chunk size 1..N+1%s, the others rotating "
              "format / reader chunk 1..N+1 / API (read, get_chunked_data_iterator, merge_readers, get_row_iterator x 3 "
              "row types) / output chunk / score scale; every family (unsorted included) of <= 2 inputs x <= 3 rows x "
              "ranks 1..3%s x asc/desc through the table merger; seeded random families <= 8 inputs x <= 30 rows "
              "with heavy ties, sorted and unsorted; "
              "distinct = distinct (impl, direction, inputs, format, reader chunk, API, output chunk)"
-             % ((" (3-input families: one of the three per family)", "", "") if quick else
-                (" and of 4 inputs x 1..2 rows x ranks 1..3", " (all three for every family)",
+             % ((" (3-input families: one of the three per family)", "", " (text/Parquet alternating)", "") if quick else
+                (" and of 4 inputs x 1..2 rows x ranks 1..3", " (all three for every family)", " x text/Parquet",
                  " and of 3 inputs x <= 3 rows x ranks 1..2")),
         exhaustive=True)
 
